@@ -8,7 +8,7 @@ V = os.path.dirname(os.path.dirname(os.path.abspath(__file__)))
 WT = '/tmp/mut-wt'
 PY = '/venv/bin/python'
 MAP = {
-    'crysp/bits.py': ['C07', 'C08'], 'crysp/poly.py': ['C16'], 'crysp/padding.py': ['C09', 'C14'], 'crysp/sha.py': ['C01'], 'crysp/md.py': ['C01', 'C17'],
+    'crysp/bits.py': ['C07', 'C08'], 'crysp/poly.py': ['C16'], 'crysp/padding.py': ['C09', 'C14'], 'crysp/sha.py': ['C01', 'C04'], 'crysp/md.py': ['C01', 'C17'],
     'crysp/blake.py': ['C11', 'C14'], 'crysp/keccak.py': ['C04'], 'crysp/hmac.py': ['C13'], 'crysp/aes.py': ['C02', 'C03'], 'crysp/des.py': ['C02', 'C03'],
     'crysp/serpent.py': ['C02', 'C03'], 'crysp/threefish.py': ['C02', 'C12'], 'crysp/skein.py': ['C12'], 'crysp/mode.py': ['C05'], 'crysp/salsa20.py': ['C06'],
     'crysp/chacha.py': ['C06'], 'crysp/rc4.py': ['C06'], 'crysp/crc.py': ['C15'], 'crysp/wb.py': ['C18'], 'crysp/tlsh.py': ['C19', 'C10'], 'crysp/nilsimsa.py': ['C19'],
@@ -36,6 +36,13 @@ def points(tree):
             out.append((n, 'boolop'))
         elif isinstance(n, ast.UnaryOp) and isinstance(n.op, ast.Not):
             out.append((n, 'not'))
+        elif isinstance(n, (ast.Expr, ast.AugAssign)) or (isinstance(n, ast.Assign) and isinstance(n.targets[0], (ast.Attribute, ast.Subscript))):
+            if not (isinstance(n, ast.Expr) and isinstance(n.value, ast.Constant)):
+                out.append((n, 'delstmt'))
+        elif isinstance(n, ast.Subscript) and isinstance(n.slice, ast.Slice) and (n.slice.lower is not None or n.slice.upper is not None):
+            out.append((n, 'slice'))
+        elif isinstance(n, ast.Call) and len(n.args) >= 2 and not n.keywords:
+            out.append((n, 'swapargs'))
     return out
 
 
@@ -46,6 +53,20 @@ def apply(n, kind):
     elif kind == 'const-': n.value -= 1
     elif kind == 'boolop': n.op = ast.Or() if isinstance(n.op, ast.And) else ast.And()
     elif kind == 'not': n.op = ast.UAdd()          # `not x` -> `+x` keeps truthiness flipped only for bools... replaced below
+    elif kind == 'delstmt':
+        # the statement becomes `pass` (same node object mutated in place so that the tree stays consistent)
+        n.__class__ = ast.Pass
+        for f in list(n.__dict__):
+            if f not in ('lineno', 'col_offset', 'end_lineno', 'end_col_offset'):
+                del n.__dict__[f]
+    elif kind == 'slice':
+        sl = n.slice
+        if sl.upper is not None and (sl.lower is None or id(n) % 2):
+            sl.upper = ast.BinOp(sl.upper, ast.Add(), ast.Constant(1))
+        else:
+            sl.lower = ast.BinOp(sl.lower, ast.Add(), ast.Constant(1))
+    elif kind == 'swapargs':
+        n.args[0], n.args[1] = n.args[1], n.args[0]
 
 
 def run(cmd, cwd=None, env=None, timeout=1800):
@@ -71,6 +92,8 @@ def main():
             src = open(os.path.join('/repo', f)).read()
             tree = ast.parse(src)
             pts = [p for p in points(tree) if p[1] != 'not']
+            if os.environ.get('MUT_KINDS'):
+                pts = [p for p in pts if p[1] in os.environ['MUT_KINDS'].split(',')]
             if not pts:
                 continue
             node, kind = rng.choice(pts)
@@ -80,7 +103,7 @@ def main():
             after = ast.unparse(node)
             # splice textually on the original line only when the fragment is found there; otherwise unparse the whole file
             lines = src.split('\n')
-            if before in lines[line - 1] and lines[line - 1].count(before) == 1:
+            if kind not in ('delstmt',) and before in lines[line - 1] and lines[line - 1].count(before) == 1:
                 lines[line - 1] = lines[line - 1].replace(before, after)
                 new = '\n'.join(lines)
             else:
